@@ -571,3 +571,18 @@ pub fn finish_named(ctx: &RunCtx, rep: Report, file_stem: &str) -> i32 {
 pub fn ms(d: std::time::Duration) -> u64 {
     d.as_millis() as u64
 }
+
+/// Polls once *without tokio's cooperative-scheduling budget*. The scenario schedulers poll many
+/// tasks by hand inside one poll of the runtime's `block_on` future; tokio charges all of their
+/// channel/timer operations to that single budget of 128, after which every tokio resource returns
+/// `Pending` with a wake-up deferred until the runtime is next parked - which would make tasks look
+/// idle (and "woken by the clock advance") although they have work. Unconstrained polls restore the
+/// semantics each task would have as a task of its own.
+pub fn poll_unconstrained<T>(
+    cx: &mut std::task::Context<'_>,
+    f: impl FnMut(&mut std::task::Context<'_>) -> std::task::Poll<T>,
+) -> std::task::Poll<T> {
+    use std::future::Future;
+    let mut u = tokio::task::unconstrained(futures::future::poll_fn(f));
+    std::pin::Pin::new(&mut u).poll(cx)
+}
